@@ -149,6 +149,8 @@ Expect(ev) ==
             IF PreResRemove(w, ev.ev) THEN R(TRUE, DoResRemove(w, ev.ev), {}) ELSE R(FALSE, w, {})
       [] ev.op = "ResSet" ->   \* a write through the pointer Get returns; Get of an absent resource is nil (not regulated)
             IF PreResSet(w, ev.ev) THEN R(TRUE, DoResSet(w, ev.ev, Fn(ev.vals)[ev.ev]), {}) ELSE [def |-> FALSE, pre |-> TRUE, w2 |-> w, foot |-> {}]
+      [] ev.op = "RegType" ->
+            IF PreRegType(w) THEN R(TRUE, DoRegType(w), {}) ELSE R(FALSE, w, {})
       [] ev.op = "TLock" ->   \* traced programs: the world lock taken / released by a query or a callback phase
             R(TRUE, [w EXCEPT !.cb = @ + 1], {})
       [] ev.op = "TUnlock" ->
@@ -209,6 +211,14 @@ CheckOp(ev) ==
         vRes == IF "res" \in DOMAIN ev.st /\ Fn(ev.st.res) # exp.res
                 THEN {V(IF ev.op = "Reset" THEN "C16.diverge" ELSE "C18.resource", <<ev.op, "resources", ev.st.res>>)}
                 ELSE {}
+        \* the component registry: the number of types registered, and which model components are relations
+        rejected == ~x.pre \/ ev.panic
+        vReg == (IF "ntypes" \in DOMAIN ev.st /\ ev.st.ntypes # exp.nreg
+                 THEN {V(IF rejected THEN (IF lockMis THEN "C07.effect-after-panic" ELSE "C10.state-changed") ELSE "C18.id-consumed",
+                         <<ev.op, "types", ev.st.ntypes>>)} ELSE {})
+                \cup (IF "relc" \in DOMAIN ev.st /\ SetOf(ev.st.relc) # w.rel
+                      THEN {V(IF rejected THEN (IF lockMis THEN "C07.effect-after-panic" ELSE "C10.state-changed") ELSE "C18.id-unstable",
+                              <<ev.op, "relation components", ev.st.relc>>)} ELSE {})
         vPanic ==
             IF x.pre /\ ev.panic
             THEN (IF ev.op \in {"QOpen", "QNext", "QClose", "DumpLoad"} THEN {}
@@ -354,7 +364,7 @@ CheckOp(ev) ==
        THEN [def |-> TRUE, next |-> w, vs |-> {V("C02.no-new-handle", <<ev.op, ev.ret>>)}]
        ELSE
        [def |-> x.def, next |-> exp,
-        vs |-> IF x.def THEN vPanic \cup vDup \cup vAlive \cup vCount \cup vEnt \cup vLock \cup vCb \cup vC08 \cup vC09 \cup vQ \cup vShr \cup vDump \cup vRes ELSE {}]
+        vs |-> IF x.def THEN vPanic \cup vDup \cup vAlive \cup vCount \cup vEnt \cup vLock \cup vCb \cup vC08 \cup vC09 \cup vQ \cup vShr \cup vDump \cup vRes \cup vReg ELSE {}]
 
 (***************************************************************************)
 (* Probes: a query / Count / EntityAt battery run by the executor.         *)
